@@ -27,12 +27,12 @@ SumM(M) == LET RECURSIVE S(_)
                S(k) == IF k = 0 THEN 0 ELSE S(k - 1) + (3 * k + 2) * SumV(M[k]) IN S(Len(M))
 Check(I) == SumM(I.A) + 5 * SumM(I.Lp) + 7 * SumM(I.L2p) + 11 * SumM(I.C) + 13 * SumM(I.R)
             + 17 * SumV(I.x) + 19 * I.nk + 23 * I.m + 29 * SumV(I.fa) + 31 * SumV(I.ga) + 37 * SumV(I.c1)
-Keep(I, stride) == (Check(I) % stride) = 0
+Keep(I, stride) == (Check(I) % (IF I.n = 1 THEN (stride \div 8) + 1 ELSE stride)) = 0
 
 \* two-level thinning: coarse choices first (family, dims, n+k, A: for every (n+k, dims) another residue
 \* class of A), then the instances completing them
-KeepC(c) == \/ c.fam = "mean"
-            \/ (K!ASum(c.A) % (IF c.fam = "cov" THEN GCoarse ELSE 4 * GCoarse)) = ((c.nk + c.d) % GCoarse)
+KeepC(c) == \/ K!DimN(c.d) = 1
+            \/ (K!ASum(c.A) % GCoarse) = ((c.nk + c.d) % GCoarse)
 StrideOf(I) == CASE I.fam = "cov" -> GStride [] I.fam = "mean" -> GStrideM [] OTHER -> GStrideN
 Pool == UNION { K!Insts(c) : c \in {cc \in K!Coarse : KeepC(cc)} }
 
